@@ -12,6 +12,7 @@ import (
 	"time"
 
 	wrapping "github.com/hashicorp/go-kms-wrapping/v2"
+	"github.com/hashicorp/go-kms-wrapping/v2/extras/multi"
 	"github.com/hashicorp/nodeenrollment"
 	"github.com/hashicorp/nodeenrollment/registration"
 	"github.com/hashicorp/nodeenrollment/rotation"
@@ -357,6 +358,25 @@ func c12Records(r *kernel.Run) {
 	tp := r.Tape
 	backend := backends[tp.Draw(3)]
 	w := NewWorld(r, "store", backend, true, false)
+	// rekey: the KMS key underneath the application's wrapper is rotated between store and load. The wrapper is the same
+	// object (a go-kms-wrapping pooled wrapper: decrypts with whichever member sealed a blob, encrypts with the newest,
+	// reports the newest key ID), so "loading with the same wrapper returns exactly what was stored" still applies.
+	rekey := func() {}
+	if tp.Draw(3) == 0 {
+		pool, err := multi.NewPooledWrapper(context.Background(), w.SW)
+		if err != nil {
+			r.HarnessErr("pooled wrapper: %v", err)
+		}
+		w.SW = pool
+		gen := 1
+		rekey = func() {
+			gen++
+			if ok, err := pool.SetEncryptingWrapper(context.Background(), newAead(r, fmt.Sprintf("kms-key-v%d", gen))); err != nil || !ok {
+				r.HarnessErr("set encrypting wrapper: %v %v", ok, err)
+			}
+			r.Count("fault.kms_key_rotated_between_store_and_load", 1)
+		}
+	}
 	w1 := w.SW
 	w2 := newAead(r, "other-wrapper")
 	o1 := []nodeenrollment.Option{nodeenrollment.WithStorageWrapper(w1)}
@@ -413,6 +433,7 @@ func c12Records(r *kernel.Run) {
 		if err := b.Store(w.Ctx, w.Storage, o1...); err != nil {
 			r.Violate("roundtrip", "store-failed/"+kname, "%v", err)
 		}
+		rekey()
 		got, err := types.LoadNodeCredentials(w.Ctx, w.Storage, nodeenrollment.CurrentId, o1...)
 		if err != nil || !proto.Equal(got, orig) {
 			r.Violate("roundtrip", "roundtrip-differs/"+kname, "load with the same wrapper: err=%v equal=%v (mask %d)", err, err == nil && proto.Equal(got, orig), opt)
@@ -495,6 +516,7 @@ func c12Records(r *kernel.Run) {
 		if err := b.Store(w.Ctx, w.Storage, o1...); err != nil {
 			r.Violate("roundtrip", "store-failed/"+kname, "%v", err)
 		}
+		rekey()
 		got, err := types.LoadNodeInformation(w.Ctx, w.Storage, a.Id, o1...)
 		if err != nil || !proto.Equal(got, orig) {
 			r.Violate("roundtrip", "roundtrip-differs/"+kname, "load with the same wrapper: err=%v (mask %d)", err, opt)
@@ -571,6 +593,7 @@ func c12Records(r *kernel.Run) {
 		if err := rc.Store(w.Ctx, w.Storage, o1...); err != nil {
 			r.Violate("roundtrip", "store-failed/"+kname, "%v", err)
 		}
+		rekey()
 		got, err := types.LoadRootCertificates(w.Ctx, w.Storage, o1...)
 		if err != nil || !proto.Equal(got, orig) {
 			r.Violate("roundtrip", "roundtrip-differs/"+kname, "load with the same wrapper: err=%v (mask %d)", err, opt)
@@ -608,6 +631,7 @@ func c12Records(r *kernel.Run) {
 		if err := b.Store(w.Ctx, w.Storage, o1...); err != nil {
 			r.Violate("roundtrip", "store-failed/"+kname, "%v", err)
 		}
+		rekey()
 		got, err := types.LoadServerLedActivationToken(w.Ctx, w.Storage, a.Id, o1...)
 		if err != nil || !got.CreationTime.AsTime().Equal(a.CreationTime.AsTime()) || !proto.Equal(got.State, a.State) || got.Id != a.Id {
 			r.Violate("roundtrip", "roundtrip-differs/"+kname, "load with the same wrapper: err=%v (mask %d)", err, opt)
